@@ -18,7 +18,7 @@ Extraction "../driver/model.ml"
   Rpu.dm_main_prog Blocks.desc_of Fields.present
   Ops.dm_add_block Ops.dm_remove_level Ops.dm_replace_level Ops.dm_replace_block Ops.with_dm
   Ops.crop Ops.set_offsets Ops.remove_mapping Ops.remove_cmv40 Ops.replace_levels_from_rpu
-  Mux.mux Mux.mux_spec Editor.edit Generator.generate Generator.generate_hdr10plus XmlFormulas.generate_xml Export.scenes Export.l5_export Export.dm_version Export.profiles Export.scene_count Export.maxcll_pq Export.maxfall_pq Export.l2_targets Export.l6_list Export.mastering
+  Mux.mux Mux.mux_spec Editor.edit Generator.generate Generator.generate_hdr10plus Generator.generate_madvr XmlFormulas.generate_xml Export.scenes Export.l5_export Export.dm_version Export.profiles Export.scene_count Export.maxcll_pq Export.maxfall_pq Export.l2_targets Export.l6_list Export.mastering
   Order.ordered_frames Order.extract_rpus Order.inject_rpus
   Stream.run_stream Stream.assign_indices Stream.ps0 Stream.remove_hdr10plus Stream.parse_sei_rbsp
   RpuFile.parse_rpu_file RpuFile.write_rpu_file
